@@ -56,6 +56,9 @@ func isHexByte(c byte) bool {
 // comments, no !important, no escapes.
 func StyleAttr(r *rand.Rand, known []StyleDecl, clean bool) string {
 	n := 1 + r.Intn(4)
+	if r.Intn(40) == 0 {
+		n = 65 + r.Intn(140) // more declarations than any fixed-size table holds
+	}
 	var decls []string
 	for i := 0; i < n; i++ {
 		var prop, val string
